@@ -127,7 +127,15 @@ def _fromhex(ctx, args, kwargs):
 
 from .values import SMethod as SMethod_
 
+def _use_lemma(ctx, args, kwargs):
+    fn, s = args
+    ctx.used_contracts.add("lemma:" + fn.__name__)
+    ctx.assume(ctx.as_goal(ctx.call_spec(fn, {"s": s})))
+    return True
+
+
 ModelsMixin.FUNCTION_MODELS.update({
+    "pyvc.spec.use_lemma": _use_lemma,
     "pyvc.spec.is_digits": _is_digits,
     "pyvc.spec.instantiate_post": _instantiate_post,
     "pyvc.spec.assume_pre": _assume_pre,
